@@ -69,7 +69,7 @@ func TestCheck(t *testing.T) {
 	run.SetRule("each case: a fixture committee window (5-7 members incl. one with zero scaled power and a non-member), a real participant driven with validly signed messages to a random (instance, round, phase), a corpus of valid messages for every step/round/value shape and 36 field-level corruption/recombination operators; each (message, progress, history) presentation is one evaluation, judged by the independent provenance-based reference validator; warm (small caches, repeated and interleaved presentations) vs fresh participant differential. distinct non-trivial = distinct (operator|valid, phase, relevance class, reference verdict, progress phase) combinations actually evaluated")
 	run.Assume("signatures are the vsig stand-in; the reference decides signature validity by provenance (semantic content a signature was created over), not by re-deriving signing bytes",
 		"relevance follows the validator's documented window (current..current+lookback, DECIDE of previous instance, current/previous round); only 'valid and relevant but rejected' is judged on relevance")
-	n := run.N(300, 30000)
+	n := run.N(1500, 60000)
 	var mu sync.Mutex
 	body := func(i int) {
 		seed := run.SubSeed(int64(i))
